@@ -67,10 +67,10 @@ def check_visitor(ctx, lib):
         return b, o, okt, tails
 
     b, o, okt, tails = R("visit_bool")
-    row("visit_bool", b and len(okt) == 1 and not tails and ms(okt[0], Agg(VAR + "::Bool", Each(P2))), "Bool(value)")
+    row("visit_bool", b and okt and not tails and all(ms(t, Agg(VAR + "::Bool", Each(P2))) for t in okt), "Bool(value)")
     for nm, ty in (("visit_i64", "i64"), ("visit_u64", "u64")):
         b, o, okt, tails = R(nm)
-        ok = bool(b) and len(okt) == 1 and not tails and ms(okt[0], Agg(VAR + "::Number", Each(P2)))
+        ok = bool(b) and bool(okt) and not tails and all(ms(t, Agg(VAR + "::Number", Each(P2))) for t in okt)
         if ok:
             ok, why = int_entry_ok(b, ty, P2)
         row(nm, ok, f"Number(Number::from::<{ty}>(value)) — exact, no cast, no detour through a double")
@@ -78,12 +78,12 @@ def check_visitor(ctx, lib):
     ok = bool(b) and len(okt) >= 1 and not tails and not casts_in(b) and f64_mapping_ok(set().union(*okt), P2)
     row("visit_f64", ok, "Number(from_f64(value)), Null for a non-finite value")
     b, o, okt, tails = R("visit_string")
-    row("visit_string", b and len(okt) == 1 and not tails and ms(okt[0], Agg(VAR + "::String", Each(P2))), "String(the owned string)")
+    row("visit_string", b and okt and not tails and all(ms(t, Agg(VAR + "::String", Each(P2))) for t in okt), "String(the owned string)")
     b, o, okt, tails = R("visit_str")
     row("visit_str", b and not okt and len(tails) == 1 and m(tails[0], Call("serde::de::Visitor::visit_string", Each(P1), Each(P2))), "visit_string(String::from(value)) — every code point kept")
     for nm in ("visit_none", "visit_unit"):
         b, o, okt, tails = R(nm)
-        row(nm, b and len(okt) == 1 and not tails and ms(okt[0], Agg(VAR + "::Null")), "Null")
+        row(nm, b and okt and not tails and all(ms(t, Agg(VAR + "::Null")) for t in okt), "Null")
     b, o, okt, tails = R("visit_some")
     ok = bool(b) and not okt and len(tails) == 1 and m(tails[0], Call("serde::Deserialize::deserialize", Each(P2)))
     if ok:
